@@ -4,6 +4,7 @@ import (
 	"bytes"
 	"fmt"
 	"io"
+	"strings"
 
 	"github.com/ulikunitz/xz"
 	"pgregory.net/rapid"
@@ -180,6 +181,13 @@ func drawXZCase(t *rapid.T) caseXZ {
 	if rapid.IntRange(0, 3).Draw(t, "hasprior") == 0 {
 		c.Prior = rapid.IntRange(1, 20000).Draw(t, "prior")
 	}
+	if rapid.IntRange(0, 11).Draw(t, "oddcfg") == 0 {
+		gen.DrawOdd(t, &c.Cfg, "xz")
+		if c.Data.Len() > 200000 {
+			c.Data = c.Data[:1]
+			c.Part = gen.Partition{Kind: "single"}
+		}
+	}
 	return c
 }
 
@@ -196,6 +204,9 @@ func runXZWrite(c caseXZ) (*writeResult, *ev.Failure) {
 	cfg := c.Cfg.XZ()
 	m := matcherName(c.Cfg.Matcher)
 	if err := cfg.Verify(); err != nil {
+		if c.Cfg.Odd != "" {
+			return nil, rejectedCfg
+		}
 		panic("generator produced a configuration Verify rejects: " + err.Error())
 	}
 	data := c.Data.Expand()
@@ -211,6 +222,9 @@ func runXZWrite(c caseXZ) (*writeResult, *ev.Failure) {
 	}
 	var sink bytes.Buffer
 	w, err := c.Cfg.XZ().NewWriter(&sink)
+	if err != nil && c.Cfg.Odd != "" {
+		return nil, rejectedCfg
+	}
 	if err != nil {
 		return nil, ev.Fail("NewWriter: "+err.Error(), "stage", "newwriter", "matcher", m)
 	}
@@ -323,9 +337,33 @@ func classifyXZ(c caseXZ, rec *ev.Rec, res *ref.XZResult, n int) (nontrivial boo
 
 func caseHash(c any) uint64 { return ev.Hash64(fmt.Sprintf("%+v", c)) }
 
+// rejectedCfg is what the run functions return when the library refuses a
+// configuration drawn by gen.DrawOdd.
+var rejectedCfg = &ev.Failure{Msg: "configuration rejected"}
+
+// oddOutcome records what the library said to an odd configuration.
+func oddOutcome(cfg gen.Cfg, f *ev.Failure, rec *ev.Rec) (rejected bool) {
+	if cfg.Odd == "" {
+		return false
+	}
+	dim := cfg.Odd
+	if i := strings.IndexByte(dim, '='); i > 0 {
+		dim = dim[:i]
+	}
+	if f == rejectedCfg {
+		rec.Class("odd_config_rejected", "odd_config_rejected="+dim)
+		return true
+	}
+	rec.Class("odd_config_accepted", "odd_config_accepted="+dim)
+	return false
+}
+
 // checkC01 is the round-trip oracle.
 func checkC01(c caseXZ, rec *ev.Rec) *ev.Failure {
 	wr, f := runXZWrite(c)
+	if oddOutcome(c.Cfg, f, rec) {
+		return nil
+	}
 	if f != nil {
 		return f
 	}
@@ -383,6 +421,9 @@ func firstDiff(a, b []byte) int {
 func checkC02(c caseXZ, rec *ev.Rec) *ev.Failure {
 	c.Tail = nil
 	wr, f := runXZWrite(c)
+	if oddOutcome(c.Cfg, f, rec) {
+		return nil
+	}
 	if f != nil {
 		// the call-level failure belongs to C01; C02 judges emitted streams
 		rec.Class("write_failed(C01)")
